@@ -78,6 +78,12 @@ class GhostPos(object):
                 for dcl in x.get("decls", ()):
                     if dcl["d"] in self.ptrvars and dcl.get("init") is not None:
                         assigns.append((dcl["d"], dcl["init"]))
+        # node pointers produced by calls this analysis has no model of (helpers extracted by a refactoring, accessors)
+        self.unknown_ptrs = set()
+        for d, rhs in assigns:
+            r_ = X.strip(rhs)
+            if r_ is not None and r_.get("k") == "call" and not re.search(r"_item_new$|_item_dup$", X.callee_name(r_) or ""):
+                self.unknown_ptrs.add(d)
         # only locals that can point into self's chain carry a ghost position; nodes of other lists and fresh nodes do not
         cand = self.ptrvars
         self.ptrvars = set()
@@ -332,6 +338,9 @@ class GhostPos(object):
         L = Lin.sym("len")
         if f in ("head", "tail"):
             return [L, -L] if isnull else [L - 1]
+        if s.get("k") == "ref" and s.get("d") in self.unknown_ptrs:
+            # the outcome depends on what an unmodelled callee returned: whatever is concluded under this test is undecided
+            return [Lin.sym("unk") - 1] + ([Lin.sym("n%d" % s["d"]) - 1] if not isnull else [])
         if s.get("k") == "ref" and s.get("d") in self.ptrvars:
             p = Lin.sym("p%d" % s["d"])
             if not isnull:
@@ -361,6 +370,11 @@ class GhostPos(object):
         k = c.get("k")
         if k == "un" and c.get("op") == "!":
             return self.refine(cons, c["ch"][0], not truth)
+        if k == "cond":
+            tv, fv = X.const_val(c["ch"][1]), X.const_val(c["ch"][2])
+            if tv is not None and fv is not None and bool(tv) != bool(fv):
+                return self.refine(cons, c["ch"][0], truth if tv else not truth)
+            return cons
         if k == "bin" and c.get("op") in ("&&", "||"):
             both = (c["op"] == "&&") == truth
             if both:
@@ -563,6 +577,20 @@ class GhostPos(object):
                 st = self.transfer(st, n, blk)
 
     # ------------------------------------------------------------------ queries
+    @staticmethod
+    def tainted(cons):
+        """the state was reached through a test of a value this analysis has no model of"""
+        return entails(list(cons), Lin.sym("unk") - 1)
+
+    def mentions_unknown(self, e):
+        """does the expression use a node pointer that came out of an unmodelled call (directly or as a nested call)?"""
+        for y in walk(e):
+            if y.get("k") == "ref" and y.get("d") in self.unknown_ptrs:
+                return True
+            if y is not e and y.get("k") == "call" and y.get("tp") and not re.search(r"_item_(new|del|get_data|set_data)$", X.callee_name(y) or ""):
+                return True
+        return False
+
     @staticmethod
     def proves_eq(cons, a, b):
         return entails(list(cons), a - b) and entails(list(cons), b - a)
